@@ -144,3 +144,44 @@ def collect(p: subprocess.Popen, outdir: Path, job: dict) -> dict:
             "stderr": stderr[-600:],
         },
     }
+
+
+def launch_sync(src: str, only: list[str] | None = None):
+    """Start ``harness.c14_sync_worker`` (the Synchronized-set probe)."""
+    outdir = VERIF / "out" / "c14" / ("sync-" + uuid.uuid4().hex[:10])
+    outdir.mkdir(parents=True, exist_ok=True)
+    job = dict(src=src, only=only, result_file=str(outdir / "result.json"))
+    (outdir / "job.json").write_text(json.dumps(job))
+    env = dict(os.environ, PYTHONPATH=f"{src}:{VERIF}", PYTHONHASHSEED="0")
+    err = open(outdir / "stderr.txt", "w")
+    p = subprocess.Popen(
+        [sys.executable, "-m", "harness.c14_sync_worker", str(outdir / "job.json")],
+        cwd=VERIF, env=env, stdin=subprocess.DEVNULL, stdout=subprocess.DEVNULL, stderr=err,
+        start_new_session=True,
+    )
+    with _LLOCK:
+        _LAUNCHED.append((p, outdir))
+    return p, outdir
+
+
+def collect_sync(p: subprocess.Popen, outdir: Path, timeout: float = 180) -> dict:
+    try:
+        try:
+            p.wait(timeout=timeout)
+        except subprocess.TimeoutExpired:
+            raise MachineryError(f"C14 sync worker timed out after {timeout}s")
+        finally:
+            try:
+                os.killpg(p.pid, signal.SIGKILL)
+            except (ProcessLookupError, PermissionError):
+                pass
+            p.wait()
+            with _LLOCK:
+                _LAUNCHED[:] = [x for x in _LAUNCHED if x[0] is not p]
+        stderr = (outdir / "stderr.txt").read_text()[-3000:]
+        rf = outdir / "result.json"
+        if p.returncode != 0 or not rf.exists():
+            raise MachineryError(f"C14 sync worker failed (rc={p.returncode}):\n{stderr}")
+        return json.loads(rf.read_text())
+    finally:
+        shutil.rmtree(outdir, ignore_errors=True)
